@@ -4,7 +4,6 @@ from lib.core import Case
 from lib import cbuild
 
 ID = "C13"
-NOT_CLAIMED = "temporarily withdrawn: model being updated to the two URI repairs (7bf9897, 3dbc364)"
 LEAN_MODULES = ["AwsVerif.Props.C13"]
 COMPONENT = "uri"
 # a parse result on a string the property does not constrain (outside Comp.ok) that differs from
@@ -20,8 +19,8 @@ HARNESS = dict(
 TRUSTED = ["hand model lean/AwsVerif/Model/Uri.lean (tied by this correspondence run only)",
            "python reference coders (urllib.parse.quote / unquote_to_bytes) and component oracle in props/c13.py"]
 ASSUMPTIONS = ["allocation does not fail (aws_mem_acquire aborts on NULL)",
-               "component tuples satisfy Comp.ok (Proofs/C13/Spec.lean): a scheme-less text whose first ':' is followed by '/', "
-               "and an empty path with a '/' in the query, are parsed differently by uri.c and are excluded"]
+               "component tuples satisfy Comp.ok (Proofs/C13/Spec.lean): scheme without ':/?#@[]', userinfo without '@/?', host without "
+               "'/?:@[]' or bracketed text without ']/?@', port < 2^32, path empty or '/'-led without '?', query arbitrary, text non-empty"]
 RULE = ("cases of <=8 ops: parse of strings assembled from component tuples (full product of small value sets + random), "
         "raw strings, builder options, coders on byte strings with all 256 values and starting lengths 0..40, query strings "
         "(exhaustive over {a,=,&} to length 6 + random); non-trivial = at least one op whose oracle clause was evaluated")
@@ -93,7 +92,7 @@ class Comp:
         """mirror of Comp.ok in lean/AwsVerif/Proofs/C13/Spec.lean (port range handled by the caller)"""
         def none_of(bs, bad):
             return not any(c in bad for c in bs)
-        if self.scheme is not None and not none_of(self.scheme, b":/?#@"):
+        if self.scheme is not None and not none_of(self.scheme, b":/?#@[]"):
             return False
         if self.userinfo is not None and not none_of(self.userinfo, b"@/?"):
             return False
@@ -104,16 +103,9 @@ class Comp:
             return False
         if self.path and (self.path[:1] != b"/" or b"?" in self.path):
             return False
-        if not self.path and self.query is not None and b"/" in self.query:
-            return False
-        r = self.rest()
-        if not r:
-            return False
-        if self.scheme is None:
-            i = r.find(b":")
-            if i >= 0 and r[i + 1:i + 2] == b"/":
-                return False
-        return True
+        # the query is arbitrary (also with an empty path), and nothing extra is asked of a tuple without
+        # scheme (Lean: c13_schemeless_never_scheme_like)
+        return bool(self.rest())
 
     def annot(self):
         o = lambda x: "~" if x is None else hx(x)
@@ -146,8 +138,8 @@ SCHEMES = [None, b"http", b"", b"a+b-c.1"]
 USERINFOS = [None, b"", b"user", b"user:pw", b"u:", b":p", b"a:b:c"]
 HOSTS = [(b"", False), (b"example.com", False), (b"a", False), (b"::1", True), (b"", True), (b"fe80::1%25en0", True), (b"1:2", True)]
 PORTS = [None, 0, 1, 80, 65535, U32, U32 + 1, 10 ** 19 + 7, 2 ** 64, 4294967306]
-PATHS = [b"", b"/", b"/a/b", b"/a:b/@c", b"/%20;x"]
-QUERIES = [None, b"", b"a=1", b"a=1&b=2&&c", b"x=/y", b"u=http://z/", b"=&="]
+PATHS = [b"", b"/", b"/a/b", b"/a:/b", b"/a:b/@c", b"/%20;x"]
+QUERIES = [None, b"", b"a=1", b"a=1&b=2&&c", b"x=/y", b"u=http://z/", b"=&=", b":/", b"/"]
 ALPHA = b"abcXYZ019-_.~!$'()*+,;=%: /?#@[]&"
 
 
@@ -194,11 +186,18 @@ def gen_comp_cases(rng, tier):
     for sc, ui, (h, v6), po, pa, q in itertools.product(SCHEMES[:3], USERINFOS[:4] + [USERINFOS[6]], HOSTS[:5], PORTS[:8], PATHS[:3], QUERIES[:5]):
         comps.append(Comp(sc, ui, h, v6, po, pa, q))
     rng.shuffle(comps)
+    # shapes older revisions misparsed, in full in every tier: empty path + '/' in the query, no scheme with ":/" in
+    # path or query, "://" in the query with a scheme present
+    shapes = [Comp(sc, ui, h, v6, po, pa, q) for sc, ui, (h, v6), po, pa, q in itertools.product(
+        [None, b"s"], [None, b"u:p"], [(b"h", False), (b"::1", True), (b"", False)], [None, 8], [b"", b"/a:/b", b"/"],
+        [None, b"a=/b", b"u=x://y", b":/", b"/", b"x://"])]
     if tier == "quick":
         # the presence/absence skeleton in full, the rest sampled
         skel = [Comp(sc, ui, h, v6, po, pa, q) for sc, ui, (h, v6), po, pa, q in itertools.product(
             [None, b"http"], [None, b"user:pw"], [(b"", False), (b"a", False), (b"::1", True)], [None, 80], [b"", b"/a"], [None, b"", b"a=1"])]
-        comps = skel + comps[:4000]
+        comps = skel + shapes + comps[:4000]
+    if tier != "quick":
+        comps = shapes + comps
     comps += [Comp(rng.choice(SCHEMES), rng.choice(USERINFOS), *rng.choice(HOSTS), rng.choice(PORTS), rng.choice(PATHS), rng.choice(QUERIES))
               for _ in range(1000 if tier == "quick" else 20000)]
     comps += [rand_comp(rng) for _ in range(5000 if tier == "quick" else 200000)]
@@ -264,8 +263,8 @@ def gen_build_cases(rng, tier):
     bschemes = [b"", b"http", b"s3"]
     bhosts = [b"", b"example.com", b"[::1]", b"[]", b"a"]
     bports = [0, 1, 80, 65535, U32, U32 - 1, 1000000000, 999999999]
-    bpaths = [b"", b"/", b"/a/b"]
-    bqs = [dict(), dict(q=b""), dict(q=b"a=1&b"), dict(q=b"x=/y"), dict(params=[]), dict(params=[(b"a", b"1")]),
+    bpaths = [b"", b"/", b"/a/b", b"/a:/b"]
+    bqs = [dict(), dict(q=b""), dict(q=b"a=1&b"), dict(q=b"x=/y"), dict(q=b"u=x://y"), dict(params=[(b"u", b"x://y"), (b"/", b":/")]), dict(params=[]), dict(params=[(b"a", b"1")]),
            dict(params=[(b"a", b"1"), (b"", b""), (b"k", b"")]), dict(q=b"a", params=[]), dict(q=b"a", params=[(b"k", b"v")]), dict(q=b"", params=[(b"k", b"v")])]
     prod = list(itertools.product(bschemes, bhosts, bports, bpaths, bqs))
     rng.shuffle(prod)
@@ -625,7 +624,7 @@ MANIFEST = dict(
           "machine stops and every view of a successful parse is inside the text. Tied to /repo by a correspondence run of the compiled "
           "model against uri.c rebuilt from the working tree (ASan/UBSan) and by a direct Python oracle (urllib.parse.quote reference, "
           "component and pair oracles)."),
-    note=("Trusted: Lean kernel; hand-written model Model/Uri.lean (tied by correspondence only); harness; Python oracle. Comp.ok excludes "
-          "scheme-less texts whose first ':' is followed by '/' and empty paths with '/' in the query, which uri.c parses differently."),
+    note=("Trusted: Lean kernel; hand-written model Model/Uri.lean (tied by correspondence only); harness; Python oracle. Comp.ok asks "
+          "nothing of the query and nothing extra of tuples without scheme (uri.c as repaired by 7bf9897 and 3dbc364)."),
     technique="Lean 4 structural induction over byte strings + model/implementation differential run + reference-implementation oracle",
 )
